@@ -777,7 +777,11 @@ def run(rep):
     tier, rng = rep.tier, Rng(rep.seed)
     cov = rep.cov
     broken = []
-    po = common.proof_obligations(PROP_FILES)
+    # translator: the pure arithmetic/bit-level functions are regenerated from the Rust source on every run and must
+    # still equal the hand model (Properties/*Gen.v)
+    import rust2coq
+    translator, gen_files = rust2coq.step(["mux_header"], ["theories/Properties/C14Gen.v"], broken)
+    po = common.proof_obligations(PROP_FILES + gen_files)
     if not po["ok"]:
         broken.append("Coq obligations of Properties/C14.v: " + (po["log_tail"] or str(po["hygiene_problems"] or po["bad_axioms"])))
     ok, out = common.cargo_build(["mux"], "dev")
@@ -850,7 +854,8 @@ def run(rep):
         "trusted_base": common.standard_trusted_base([
             "H-ATOM: tokio channels, semaphores, Notify, oneshot and the ExclusiveLock hand-over are atomic transitions of the model; scheduling is the sequential script with a drain to quiescence after every operation",
             "the transport in the model and in the harness (tokio::io::duplex with a 2^30 byte buffer) never exerts back pressure on the writer",
-        ]),
+        ] + translator["trusted"]),
+        "translator": translator,
         "theorems": po["theorems"], "axioms": po["axioms"],
         "evaluations": stats["rounds"] + stats.get("header_values", 0),
         "distinct_nontrivial": len(distinct),
